@@ -98,7 +98,11 @@ func c18NameCase(r *Rand, z c18Zone) string {
 				s = strings.Replace(s, name, Pick(r, own), 1)
 			}
 		case 4: // one the location may not know
-			s = strings.Replace(s, name, Pick(r, c18ForeignAbbrs), 1)
+			if r.Chance(1, 3) {
+				s = strings.Replace(s, name, c18NumAbbr(r), 1) // zero-padded / very long numeric abbreviations (round 4d)
+			} else {
+				s = strings.Replace(s, name, Pick(r, c18ForeignAbbrs), 1)
+			}
 		default:
 			if r.Chance(1, 3) {
 				s = c18Mutate(r, s)
